@@ -528,7 +528,7 @@ PROPS['C19'] = {
 PROPS['C20'] = {
     'module': 'SuironVerif.Props.C20',
     'theorems': ['Suiron.C20.alone', 'Suiron.C20.as_argument', 'Suiron.C20.as_complex_argument', 'Suiron.C20.as_list_element', 'Suiron.C20.as_infix_operand',
-                 'Suiron.C20.as_query_argument', 'Suiron.C20.C20_token', 'Suiron.C20.as_argument_structured', 'Suiron.C20.as_complex_argument_structured', 'Suiron.C20.as_query_argument_structured', 'Suiron.C20.as_list_element_structured', 'Suiron.C20.among_other_arguments', 'Suiron.C20.complex_with_arguments', 'Suiron.C20.list_with_elements', 'Suiron.C20.list_with_tail', 'Suiron.C20.as_infix_operand_structured', 'Suiron.C20.canonical_term_as_infix_operand'],
+                 'Suiron.C20.as_query_argument', 'Suiron.C20.C20_token', 'Suiron.C20.as_argument_structured', 'Suiron.C20.as_complex_argument_structured', 'Suiron.C20.as_query_argument_structured', 'Suiron.C20.as_list_element_structured', 'Suiron.C20.among_other_arguments', 'Suiron.C20.complex_with_arguments', 'Suiron.C20.list_with_elements', 'Suiron.C20.list_with_tail', 'Suiron.C20.as_infix_operand_structured', 'Suiron.C20.canonical_term_as_infix_operand', 'Suiron.C20.as_comparison_operand_structured', 'Suiron.C20.canonical_term_as_comparison_operand'],
     'oracles': ['C20'],
     'suites': {
         'quick': parse_runs('C20', [('contexts', 6000, None), ('contexts', 6000, None), ('mutate', 3000, None), ('ctxstrings', 4, 2)]),
@@ -586,7 +586,7 @@ LEVEL_TEXT = {
            'implementation, with the model parser and printer compared on every case. Nested parenthesised groups are generated since repair D18 (former finding F2); double-quoted atoms (with separators, brackets and parentheses between the quotes) since D22-D24. Open known finding F5: an atom that needs its quotes is printed without them.',
     'C20': 'PARTIAL proof: for every token text (no blanks, none of [ ] ( ) , " \\ |: atoms, signed numbers, variables, $_) all five contexts - alone, argument, list element, '
            'infix operand, query argument - are proved to hand the text to the same make_term with the same classification flags, so they yield the same term, for every '
-           'fuel. For every STRUCTURED text (lists, complex terms, quoted atoms, atoms with blanks: trimmed, no backslash, no comma of its own outside quotes / parentheses / brackets, parentheses, brackets and quotes closed, no arithmetic infix) the argument, complex-argument, query-argument and (without a bar of its own) list-element contexts are proved to give parse_term of the text, also among other arguments (parse_arguments of T1, ..., Tn = the list of parse_term Ti; parse_complex fn(T1, ..., Tn) likewise; parse_linked_list [T1, ..., Tn] = parse_term Tn, ..., parse_term T1 linked in front of the empty list, and [T1, ..., Tn | V] in front of the node of the tail variable) (the loop of parse_arguments and unescape + flag loop of parse_term simulated side by side; the backward scan of parse_linked_list shown to see the same nesting as the forward scans). As the LEFT OPERAND OF = a structured text is proved to be parse_term of the text whenever it has no <, >, = and no quote and each of its ( is followed by a ) (check_infix skips to the NEXT parenthesis, not the matching one; shown harmless for such texts), which holds of every canonical term text (canonical_term_as_infix_operand). Structured infix operands with quotes or comparison characters, and texts with backslashes, are decided by the contexts stream (random canonical terms, 100 special spellings, and ALL strings up to length 4 / 5 over the 12 characters the scanners treat specially, each in eight contexts). Stating the structured version exposed and led to the repair of D19-D23. Open known findings: F3 (arithmetic infix as an argument), F4 (backslashes below the top level of a text).',
+           'fuel. For every STRUCTURED text (lists, complex terms, quoted atoms, atoms with blanks: trimmed, no backslash, no comma of its own outside quotes / parentheses / brackets, parentheses, brackets and quotes closed, no arithmetic infix) the argument, complex-argument, query-argument and (without a bar of its own) list-element contexts are proved to give parse_term of the text, also among other arguments (parse_arguments of T1, ..., Tn = the list of parse_term Ti; parse_complex fn(T1, ..., Tn) likewise; parse_linked_list [T1, ..., Tn] = parse_term Tn, ..., parse_term T1 linked in front of the empty list, and [T1, ..., Tn | V] in front of the node of the tail variable) (the loop of parse_arguments and unescape + flag loop of parse_term simulated side by side; the backward scan of parse_linked_list shown to see the same nesting as the forward scans). As the LEFT OPERAND OF = (and of ==, <, <=, >, >=) a structured text is proved to be parse_term of the text whenever it has no <, >, = and no quote and each of its ( is followed by a ) (check_infix skips to the NEXT parenthesis, not the matching one; shown harmless for such texts), which holds of every canonical term text (canonical_term_as_infix_operand). Structured infix operands with quotes or comparison characters, and texts with backslashes, are decided by the contexts stream (random canonical terms, 100 special spellings, and ALL strings up to length 4 / 5 over the 12 characters the scanners treat specially, each in eight contexts). Stating the structured version exposed and led to the repair of D19-D23. Open known findings: F3 (arithmetic infix as an argument), F4 (backslashes below the top level of a text).',
     'C21': 'Proved in Lean on the reader model, with the rule parser as a parameter: a file is rejected or its knowledge base is exactly parse_rule of each separated rule text, '
            'in order; the separation returns exactly the rule texts of a concatenation (decimal points, periods inside brackets and quotes never end a rule); the joined text '
            'is the stripped non-empty lines with one blank after every unfinished line; a line (indentation, piece, blanks, optional # / % / // comment) is stripped to '
